@@ -242,7 +242,7 @@ class OrderTaint:
                     isinstance(n.targets[0].value, ast.Name):
                 add(n.targets[0].value.id, n, 'store', n.value)
         for nm in d:
-            d[nm].sort(key=lambda x: (x[0].lineno, x[0].col_offset))
+            d[nm].sort(key=lambda x: getattr(x[0], "_ord", (x[0].lineno, x[0].col_offset)))
         self._defs[f.qualname] = d
         return d
 
